@@ -108,6 +108,7 @@ class Machine:
         self._cue_time = 0
         self._call_stack.reset(self._constants)
         self._vm_math.reset()
+        self._vm_io.reset()
         self._keep_running = True
         self._enable_pause = True
 
